@@ -5,9 +5,11 @@ import vlib
 prop = sys.argv[1]; tier = sys.argv[2]; seed = int(sys.argv[3])
 mod = importlib.import_module("props." + prop.lower())
 class Ctx2(vlib.Ctx):
-    def oracle_failure(self, fid, what, replay):
-        self.all = getattr(self, 'all', []); self.all.append((fid, what, replay))
-        super().oracle_failure(fid, what, replay)
+    def oracle_failure(self, fid, what, replay, det_key=None):
+        n0 = len(self.violations)
+        super().oracle_failure(fid, what, replay, det_key=det_key)
+        unlisted = len(self.violations) > n0 or (len(self.violations) >= 20 and not (fid in self.known))
+        self.all = getattr(self, 'all', []); self.all.append((fid if not unlisted else None, what, replay))
 ctx = Ctx2(prop, tier, seed)
 mod.run(ctx)
 cnt = collections.Counter(); ex = {}
